@@ -129,3 +129,70 @@ def build_stream(sc):
             "assumptions": ["Verus unit stream: std::io::Read implementors return n <= buf.len() (documented contract); a reader that violates it is covered by the Kani obligations stream.lying_reader.*",
                             "vec![0u8; N] yields N bytes (vstd)", "termination is not claimed (an endless reader never returns)",
                             "GeneratorType::{update,finalize} by the abstract contract fed' = fed ++ data / result_of(fed); instantiated for Generator<T> by the C01 contracts"]}
+
+
+# ------------------------------------------------------------------ static spec-lemma units
+def static_unit(name, props, fname, expect, function, quick=True):
+    def build(sc):
+        text = "use vstd::prelude::*;\nuse vstd::multiset::*;\nverus! {\n" + read(fname) + "\n} // verus!\nfn main() {}\n"
+        return {"text": text, "expect": expect, "function": function, "domain": "all sequences / all values (spec-level lemma, unbounded)",
+                "assumptions": []}
+    unit(name, props, quick=quick, rlimit=120)(build)
+
+
+static_unit("quartiles", ["C01", "C10"], "quartiles.rs", ["lemma_quartiles", "lemma_pivot"],
+            "<[u32]>::select_nth_unstable (documented contract) as used by generate::Generator::finalize_with_options")
+static_unit("gate", ["C10"], "gate.rs", ["lemma_widening", "lemma_quarter_implies_half"],
+            "generate::Generator::finalize_with_options (acceptance gate; lattice laws)")
+
+
+# ------------------------------------------------------------------ Q-ratio statement slice (R7)
+def qratio_statement(sc):
+    """R7: the single statement `let (q1ratio, q2ratio) = if <flag> { INT } else { F32 };` of
+    finalize_with_options, sliced into its two arms (token-identical)."""
+    g = src(sc, "generate.rs")
+    sig, body = extract.fn_text(g, "finalize_with_options", after=GEN_IMPL_ANCHOR)
+    m = re.search(r"let \(q1ratio, q2ratio\) = if ", body)
+    if not m:
+        raise extract.ExtractError("lost-anchor: Q-ratio statement")
+    i = body.index("{", m.end())
+    cond = body[m.end():i].strip()
+    c1 = extract.match_brace(body, i)
+    arm_int = body[i + 1:c1]
+    m2 = re.match(r"\s*else\s*\{", body[c1 + 1:])
+    if not m2:
+        raise extract.ExtractError("lost-anchor: Q-ratio statement else arm")
+    j = c1 + 1 + m2.end() - 1
+    c2 = extract.match_brace(body, j)
+    arm_f32 = body[j + 1:c2]
+    if not body[c2 + 1:].lstrip().startswith(";"):
+        raise extract.ExtractError("lost-anchor: Q-ratio statement end")
+    # data-flow side conditions (syntactic): q1,q2,q3 are not assigned after the dummy
+    # block; q1ratio/q2ratio are used exactly once, in FuzzyHashQRatios::new(q1ratio, q2ratio)
+    after = body[c2 + 1:]
+    uses = len(re.findall(r"\bq1ratio\b", after)), len(re.findall(r"\bq2ratio\b", after))
+    flow_ok = uses == (1, 1) and re.search(r"FuzzyHashQRatios::new\(\s*q1ratio\s*,\s*q2ratio\s*\)", after) is not None
+    between = body[body.index("(q1, q2, q3) = (1, 1, 1);") + 10:m.start()] if "(q1, q2, q3) = (1, 1, 1);" in body else None
+    no_reassign = between is not None and not re.search(r"\bq[123]\s*=[^=]", between)
+    return {"cond": " ".join(cond.split()), "int": arm_int, "f32": arm_f32, "flow_ok": flow_ok and no_reassign}
+
+
+@unit("qratio", ["C01"], rlimit=60)
+def build_qratio(sc):
+    st = qratio_statement(sc)
+    if "PURE_INTEGER_QRATIO_COMPUTATION" not in st["cond"] or st["cond"].startswith("!"):
+        raise extract.ExtractError("lost-anchor: Q-ratio statement condition is not the PURE_INTEGER flag test: " + st["cond"])
+    if not st["flow_ok"]:
+        raise extract.ExtractError("lost-anchor: Q-ratio data flow side conditions (q1..q3 reassigned or q*ratio used elsewhere)")
+    text = "use vstd::prelude::*;\nverus! {\n" + read("qratio_prelude.rs")
+    text += "fn qratio_int_arm(q1: u32, q2: u32, q3: u32) -> (r: (u8, u8))\n    requires q3 != 0\n" \
+            "    ensures r.0 == ref_qratio_int(q1, q3), r.1 == ref_qratio_int(q2, q3)\n{\n" \
+            "    let (q1ratio, q2ratio) = {" + st["int"] + "};\n    (q1ratio, q2ratio)\n}\n"
+    text += "proof fn canary_qratio_pre(q3: u32) requires q3 != 0 ensures false {}\n"
+    text += "\n} // verus!\nfn main() {}\n"
+    return {"text": text, "expect": ["qratio_int_arm", "canary_qratio_pre"],
+            "function": "generate::Generator::finalize_with_options (integer Q-ratio arm, statement slice R7)",
+            "domain": "all q1, q2, q3 with q3 != 0",
+            "fidelity": {"unit": "qratio", "rule": "R7: let-statement sliced into a function of its free locals; arm tokens identical",
+                         "condition": st["cond"]},
+            "assumptions": []}
